@@ -204,6 +204,12 @@ impl World {
             self.fail("O-ADDR.stable", format!("object {} {}: Deref address {:#x} differs from the address at creation {:#x}", t, how, addr, payload));
             return false;
         }
+        // formatting forwards to the value whatever the collector is doing with the allocation right now
+        let same_debug = with_cc!(cc, c => format!("{:?}", c) == format!("{:?}", &**c));
+        if !same_debug {
+            self.fail("O-FWD.phase", format!("object {} {}: Debug on the Cc differs from Debug on its value", t, how));
+            return false;
+        }
         let ok = match cc {
             AnyCc::N(c) => c.canary_ok() && c.head.id == t,
             AnyCc::KI(_) | AnyCc::KF(_) => true,
